@@ -15,10 +15,13 @@ The per-operation theorems are stated for every snapshot `s` that satisfies the 
 `C11_no_item_left_pending` says that every reachable snapshot (`finalState scripts (init k keep) ops`, any `ops`)
 does, and `C11_invariant_needed` exhibits a snapshot outside the invariant where they fail.
 
-The protected hook `_cancel()` of the subclass: the model `stepH hook` (Lib/BatchingHook.lean) mirrors the code as it
-is - `BatchBase._computed` calls the hook unguarded.  `C11_spec_holds_partial` is the property under the hypothesis
-`hook = none` (the hook returns); `C11_cancel_hook_counterexample` shows that with a raising hook the property is
-FALSE of the code (cancel() raises, the items stay pending for ever, nobody is told): an open finding.
+The protected hook `_cancel()` of the subclass: since /repo fix f2f3435 `BatchBase._computed` calls the hook inside
+`try: ... except Exception` (batching.py:123-133), so an Exception out of the hook changes nothing the harness observes.
+The model says exactly that: `stepH hook` (Lib/BatchingHook.lean) IGNORES its hook parameter (`stepH _ := step`), and
+`C11_spec_holds_hook` is therefore `C11_spec_holds` re-stated (it holds BY CONSTRUCTION and is listed so in
+harness/checks/c11.py; that a raising hook really changes nothing is the content of the correspondence run, case key
+`hook`).  `stepHook` in the same file is the behaviour of the tree BEFORE the fix, kept for reference only (the former
+finding `user/cancel-hook-raises`; no theorem is about it).
 
 Theorems that hold by one unfolding of the model, in any state (`C11_second_flush_error`, `C11_cancel_finished_noop`,
 `C11_no_add_after_finish`, `C11_flush_cancel_return`), are listed apart (BY_CONSTRUCTION in harness/checks/c11.py): their
@@ -176,8 +179,8 @@ theorem C11_no_add_after_finish (scripts : List Script) (s : St) (b p : Nat) (h 
   | none => simp [St.bout, e] at h
   | some B => simp [newItemOn_finished h]
 
-/-- **flush() / cancel() return normally** in the model without the `_cancel` hook (it has no exception channel out of
-    these two calls; with the hook it has: `C11_cancel_hook_counterexample`) -/
+/-- **flush() / cancel() return normally**: the model has no exception channel out of these two calls (since fix f2f3435
+    the `_cancel` hook of the subclass has none either: an Exception it raises is caught in `BatchBase._computed`) -/
 theorem C11_flush_cancel_return (scripts : List Script) (s : St) (b : Nat) (x : Option Nat) (hb : b < s.batches.length) :
     (s.bout b = none → (step scripts s (.flush b)).2.1 = .unit) ∧ (step scripts s (.cancel b x)).2.1 = .unit := by
   have e : s.batches[b]? = some s.batches[b] := List.getElem?_eq_getElem hb
@@ -395,10 +398,12 @@ example :
     (completeItem 0 s 0 (.val 1) true).1.iout 1 = none ∧
     (completeItem s.items.length s 0 (.val 1) true).1.iout 1 = some (.val 5) := by decide
 
-/-! ## the `_cancel()` hook of the subclass (second audit, item P1): an OPEN FINDING
+/-! ## the `_cancel()` hook of the subclass (second audit, item P1; FIXED in /repo by f2f3435)
 
-`BatchBase._computed` calls `self._cancel()` unguarded before it completes the leftover items (batching.py:123-133).
-`stepH hook` is the code as it is; `hook = none` (the hook returns) is the hypothesis under which C11 holds. -/
+`BatchBase._computed` calls `self._cancel()` inside `try: ... except Exception` before it completes the leftover items
+(batching.py:123-133).  `stepH hook` is the code as it is: the hook parameter is inert, the three statements below
+hold by `rfl` / by `C11_spec_holds` (BY_CONSTRUCTION in c11.py; third audit, section C).  The claim with content - a raising
+hook changes no observation of the REAL batch - is checked by the correspondence run of the cases with key `hook`. -/
 
 theorem stepH_any (hook : Option Nat) (scripts : List Script) (s : St) (op : Op) :
     stepH hook scripts s op = step scripts s op := rfl
@@ -411,9 +416,8 @@ theorem runH_any (hook : Option Nat) (scripts : List Script) (ops : List Op) :
     intro s
     simp only [runH, run, observeH, observe, stepH_any, ih]
 
-/-- **C11 as a whole, whatever the subclass's `_cancel()` hook does** (repaired tree: an Exception out of the hook is
-    caught in `BatchBase._computed`): the observations of the model are accepted by the observer `spec`, for both kinds,
-    all scripts, all histories, every hook -/
+/-- `C11_spec_holds` re-stated for the model with the (inert) hook parameter: holds by construction (`runH_any`), no
+    claim of its own -/
 theorem C11_spec_holds_hook (hook : Option Nat) (k : Kind) (keep : Bool) (scripts : List Script)
     (ops : List Op) : spec k (runH hook scripts (init k keep) ops) keep = true := by
   rw [runH_any]
